@@ -518,44 +518,64 @@ func c02ErrCarry(c *Ctx) {
 			if m == nil {
 				continue
 			}
-			// the error-answer branch: true edge of a call to a (raw message) -> bool function
-			ir.EachInstr(m, func(_ *ssa.BasicBlock, _ int, in ssa.Instruction) {
-				ifi, ok := in.(*ssa.If)
-				if !ok {
+			// the error-answer branch: true edge of a call to a (raw message) -> bool function, in the method itself or in
+			// a helper the method hands the raw answer to (two levels)
+			construct := ir.TypeKey(T) + "." + m.Name()
+			seenFn := map[*ssa.Function]bool{}
+			var scan func(fn *ssa.Function, depth int)
+			scan = func(fn *ssa.Function, depth int) {
+				if seenFn[fn] {
 					return
 				}
-				call, ok := ifi.Cond.(*ssa.Call)
-				if !ok {
-					return
-				}
-				sc := ir.StaticCallee(call)
-				if sc == nil || sc.Signature.Params().Len() != 1 || ir.TypeStr(sc.Signature.Params().At(0).Type()) != "*encoding/json.RawMessage" || ir.TypeStr(sc.Signature.Results().At(0).Type()) != "bool" {
-					return
-				}
-				n++
-				construct := ir.TypeKey(T) + "." + m.Name()
-				// on the true edge some fmt.Errorf takes the Message member of the parsed error
-				carries := false
-				region := flow.BlocksReachableAvoiding(ifi.Block().Succs[0], map[*ssa.BasicBlock]bool{ifi.Block().Succs[1]: true})
-				for b := range region {
-					for _, x := range b.Instrs {
-						ec, ok := x.(*ssa.Call)
-						if !ok || ir.CallName(ec) != "fmt.Errorf" {
-							continue
-						}
-						for _, e := range variadicElems(ec.Call.Args[1]) {
-							if e == nil {
-								continue
-							}
-							if f, _, ok := ir.LoadedField(ir.Unwrap(e)); ok && f.Name == "Message" {
-								carries = true
+				seenFn[fn] = true
+				ir.EachInstr(fn, func(_ *ssa.BasicBlock, _ int, in ssa.Instruction) {
+					if call, ok := in.(*ssa.Call); ok && depth < 2 {
+						if sc := ir.StaticCallee(call); sc != nil && c.P.IsLib(sc) && sc.Signature.Results().Len() > 0 &&
+							ir.TypeStr(sc.Signature.Results().At(sc.Signature.Results().Len()-1).Type()) == "error" {
+							for _, a := range call.Call.Args {
+								if ir.TypeStr(a.Type()) == "*encoding/json.RawMessage" {
+									scan(sc, depth+1)
+								}
 							}
 						}
 					}
-				}
-				c.R.Check(carries, "R-err-carry", construct, ipos(c, ifi), "the Go error carries the JSON-RPC error's message",
-					sprintf("%s turns a JSON-RPC error answer into a Go error that does not carry the answer's message: the handler's error text does not reach the caller", construct))
-			})
+					ifi, ok := in.(*ssa.If)
+					if !ok {
+						return
+					}
+					call, ok := ifi.Cond.(*ssa.Call)
+					if !ok {
+						return
+					}
+					sc := ir.StaticCallee(call)
+					if sc == nil || sc.Signature.Params().Len() != 1 || ir.TypeStr(sc.Signature.Params().At(0).Type()) != "*encoding/json.RawMessage" || ir.TypeStr(sc.Signature.Results().At(0).Type()) != "bool" {
+						return
+					}
+					n++
+					// on the true edge some fmt.Errorf takes the Message member of the parsed error
+					carries := false
+					region := flow.BlocksReachableAvoiding(ifi.Block().Succs[0], map[*ssa.BasicBlock]bool{ifi.Block().Succs[1]: true})
+					for b := range region {
+						for _, x := range b.Instrs {
+							ec, ok := x.(*ssa.Call)
+							if !ok || ir.CallName(ec) != "fmt.Errorf" {
+								continue
+							}
+							for _, e := range variadicElems(ec.Call.Args[1]) {
+								if e == nil {
+									continue
+								}
+								if f, _, ok := ir.LoadedField(ir.Unwrap(e)); ok && f.Name == "Message" {
+									carries = true
+								}
+							}
+						}
+					}
+					c.R.Check(carries, "R-err-carry", construct, ipos(c, ifi), "the Go error carries the JSON-RPC error's message",
+						sprintf("%s turns a JSON-RPC error answer into a Go error that does not carry the answer's message: the handler's error text does not reach the caller", construct))
+				})
+			}
+			scan(m, 0)
 		}
 	}
 	c.R.Min("R-err-carry", 14)
